@@ -345,6 +345,26 @@ FAMILIES = [Family('recalculate_history', gen_recalc, impl_recalc, None, '', Non
 
 
 # ------------------------------------------------------------------------------------------------
+def translate(ctx):
+    """Regenerate Gen/recon_gen.v from the reconstruction classes (operator / right-hand side / regularisation guard / cg call of
+    RegularizedIterativeSENSEReconstruction.forward, the operator chain of direct_reconstruction) and re-check gen_* = the model terms."""
+    from translate import recon
+    out = vlib.COQ / 'Gen' / 'recon_gen.v'
+    out.parent.mkdir(exist_ok=True)
+    ok, why = recon.write(out)
+    ctx.extra.setdefault('coverage', {})['translator_available'] = ok
+    ctx.obligations += recon.N_OBLIGATIONS
+    if not ok:
+        ctx.notes.append(f'translator harness/translate/recon.py failed closed ({why})')
+        ctx.problem('proof', 'gen_recon', None, f'the reconstruction classes are outside the translated subset ({why}): the regenerated obligations cannot be stated')
+        return
+    rc, so, se = vlib.coqc_file(out)
+    if rc == 0:
+        ctx.discharged += recon.N_OBLIGATIONS
+    else:
+        ctx.problem('proof', 'gen_recon', None, 'regenerated obligation gen_*_ok (reconstruction classes == model terms) no longer proves: ' + (se or so)[-700:])
+
+
 def extra_checks(ctx):
     """Tie to the Coq model: the returned image must be the n-th CG iterate that reg_sense computes in exact rational
     arithmetic on the (realified) system A^H W A, B, A^H W y, x0 of the same reconstruction."""
